@@ -45,16 +45,24 @@ Definition list_buckets (fis : list (string * option string)) (prefix token owne
   | Some max => Some (lb_loop fis prefix token owner is_admin (Z.to_nat max) [])
   end.
 
-(* ---- ListMultipartUploads page selection: uploads sorted by key, (key, upload id) ---- *)
+(* ---- ListMultipartUploads page selection: uploads sorted by (key, upload id) ---- *)
 Fixpoint find_key (ups : list (string * string)) (k : string) (i : nat) : option nat :=
   match ups with [] => None | (key, _) :: r => if String.eqb key k then Some i else find_key r k (S i) end.
+
+(* behind the marker: a greater key, or the marker's key with a greater upload id (no upload id marker: every upload of the marker's key
+   lies before the page) *)
+Definition lmu_behind (key id key_marker id_marker : string) : bool :=
+  if String.eqb key_marker "" then true
+  else if str_ltb key key_marker then false
+  else if String.eqb key key_marker then negb (String.eqb id_marker "") && negb (str_ltb id id_marker || String.eqb id id_marker)
+  else true.
 
 Fixpoint lmu_loop (ups : list (string * string)) (i n : nat) (key_marker id_marker : string) (max : nat)
                   (acc : list (string * string)) : res (list (string * string) * bool * (string * string)) :=
   match ups with
   | [] => Ok_ (acc, false, ("", ""))
   | (key, id) :: r =>
-      if negb (String.eqb key_marker "") && negb (String.eqb id_marker "") && str_ltb id id_marker
+      if negb (lmu_behind key id key_marker id_marker)
       then lmu_loop r (S i) n key_marker id_marker max acc
       else if Nat.eqb (List.length acc) max then
         match rev acc with
@@ -71,6 +79,6 @@ Definition list_uploads (sorted : list (string * string)) (key_marker id_marker 
   if (negb (String.eqb id_marker "") && negb id_found) then Ok_ ([], false, ("", "")) else
   match start with
   | None => Ok_ ([], false, ("", ""))
-  | Some st => if Nat.eqb max 0 then Ok_ ([], false, ("", ""))
-               else lmu_loop (skipn st sorted) st (List.length sorted) key_marker id_marker max []
+  | Some _ => if Nat.eqb max 0 then Ok_ ([], false, ("", ""))
+              else lmu_loop sorted 0 (List.length sorted) key_marker id_marker max []
   end.
